@@ -63,6 +63,8 @@ def oracle(name: str, args):
         return mp.re(z)
     if name == "Im":
         return mp.im(z)
+    if name == "abs":
+        return abs(z)
     if name == "conj":
         return mp.conj(z)
     if name in ("atan", "arctan"):
